@@ -19,32 +19,43 @@ EXTENDS Integers, Sequences, FiniteSets, TLC, Json
 Trace == ndJsonDeserialize("trace.ndjson")
 
 VARIABLES l, roundId, period, lastM, alive, released, diedAt, viol, valid, discarded,
-          void    \* the live holder's lock was removed in an overloaded window: the rest of the round says nothing about the holder
+          void,   \* the live holder's lock was removed in an overloaded window: the rest of the round says nothing about the holder
+          nSign, lateSign, lateCtl   \* time stamps written by the holder's heartbeat / of those, older than half a period when written / same for the control heartbeat
 
-vars == <<l, roundId, period, lastM, alive, released, diedAt, viol, valid, discarded, void>>
+vars == <<l, roundId, period, lastM, alive, released, diedAt, viol, valid, discarded, void, nSign, lateSign, lateCtl>>
 Ev == Trace[l]
 Consume == l <= Len(Trace) /\ l' = l + 1
 Flag(s) == viol' = viol \cup s
-Verdict == PrintT(<<"VERDICT", ToJson([id |-> roundId, viol |-> viol, valid |-> valid, discarded |-> discarded])>>)
+\* a sign of life carries the time at which it is written (LockFileTimed: mtime' = now): a heartbeat whose stamps are
+\* systematically older than half a period when they reach the backend - while the control heartbeat's are not - ages the
+\* lock towards "stale" although the holder lives
+StampVerdict == IF lateSign >= 5 /\ 4 * lateSign >= nSign /\ 4 * lateCtl <= lateSign THEN {"sign-of-life-stamp-not-current"} ELSE {}
+Verdict == PrintT(<<"VERDICT", ToJson([id |-> roundId, viol |-> viol \cup StampVerdict, valid |-> valid, discarded |-> discarded])>>)
 
 Max3(a, b, c) == IF a >= b /\ a >= c THEN a ELSE IF b >= c THEN b ELSE c
 Slack == 60000      \* µs: millisecond truncation of the age test, time stamp granularity, scheduling of the poll
 
 TraceInit == l = 1 /\ roundId = 0 /\ period = 50000 /\ lastM = 0 /\ alive = FALSE /\ released = FALSE /\ diedAt = -1
-             /\ viol = {} /\ valid = 0 /\ discarded = 0 /\ void = FALSE
+             /\ viol = {} /\ valid = 0 /\ discarded = 0 /\ void = FALSE /\ nSign = 0 /\ lateSign = 0 /\ lateCtl = 0
 
 Start == /\ Consume /\ Ev.op = "Start" /\ (roundId # 0 => Verdict)
          /\ roundId' = Ev.id /\ period' = Ev.period /\ lastM' = 0 /\ alive' = FALSE /\ released' = FALSE /\ diedAt' = -1
-         /\ viol' = {} /\ valid' = 0 /\ discarded' = 0 /\ void' = FALSE
-End == Consume /\ Ev.op = "End" /\ (roundId # 0 => Verdict) /\ UNCHANGED <<roundId, period, lastM, alive, released, diedAt, viol, valid, discarded, void>>
+         /\ viol' = {} /\ valid' = 0 /\ discarded' = 0 /\ void' = FALSE /\ nSign' = 0 /\ lateSign' = 0 /\ lateCtl' = 0
+End == Consume /\ Ev.op = "End" /\ (roundId # 0 => Verdict) /\ UNCHANGED <<roundId, period, lastM, alive, released, diedAt, viol, valid, discarded, void, nSign, lateSign, lateCtl>>
 
 Sign == /\ Consume /\ Ev.op = "Sign"
         /\ lastM' = (IF Ev.mtime > lastM THEN Ev.mtime ELSE lastM)
-        /\ UNCHANGED <<roundId, period, alive, released, diedAt, viol, valid, discarded, void>>
-Ctl == Consume /\ Ev.op = "Ctl" /\ UNCHANGED <<roundId, period, lastM, alive, released, diedAt, viol, valid, discarded, void>>
-Acquired == Consume /\ Ev.op = "Acquired" /\ alive' = TRUE /\ UNCHANGED <<roundId, period, lastM, released, diedAt, viol, valid, discarded, void>>
-Died == Consume /\ Ev.op = "Died" /\ alive' = FALSE /\ diedAt' = Ev.t /\ UNCHANGED <<roundId, period, lastM, released, viol, valid, discarded, void>>
-Released == Consume /\ Ev.op = "Released" /\ alive' = FALSE /\ released' = TRUE /\ UNCHANGED <<roundId, period, lastM, diedAt, viol, valid, discarded, void>>
+        /\ nSign' = nSign + 1
+        /\ lateSign' = (IF Ev.t - Ev.mtime > period \div 2 THEN lateSign + 1 ELSE lateSign)
+        \* the stamp is taken before the write begins: it can never lie in the future (5 ms for the two clocks read apart)
+        /\ (IF Ev.mtime > Ev.t + 5000 THEN Flag({"sign-of-life-stamp-in-the-future"}) ELSE UNCHANGED viol)
+        /\ UNCHANGED <<roundId, period, alive, released, diedAt, valid, discarded, void, lateCtl>>
+Ctl == /\ Consume /\ Ev.op = "Ctl"
+       /\ lateCtl' = (IF Ev.t - Ev.mtime > period \div 2 THEN lateCtl + 1 ELSE lateCtl)
+       /\ UNCHANGED <<roundId, period, lastM, alive, released, diedAt, viol, valid, discarded, void, nSign, lateSign>>
+Acquired == Consume /\ Ev.op = "Acquired" /\ alive' = TRUE /\ UNCHANGED <<roundId, period, lastM, released, diedAt, viol, valid, discarded, void, nSign, lateSign, lateCtl>>
+Died == Consume /\ Ev.op = "Died" /\ alive' = FALSE /\ diedAt' = Ev.t /\ UNCHANGED <<roundId, period, lastM, released, viol, valid, discarded, void, nSign, lateSign, lateCtl>>
+Released == Consume /\ Ev.op = "Released" /\ alive' = FALSE /\ released' = TRUE /\ UNCHANGED <<roundId, period, lastM, diedAt, viol, valid, discarded, void, nSign, lateSign, lateCtl>>
 
 \* a poll: IsStale / ReleaseIfStale / TryLock by an observer
 Poll ==
@@ -66,7 +77,7 @@ Poll ==
           ELSE valid' = valid + 1 /\ UNCHANGED <<viol, discarded>>
     \* a live holder's lock that was actually released or taken over no longer is the holder's
     /\ void' = (void \/ (Ev.judged /\ alive /\ ~released /\ Ev.kind \in {"ReleaseIfStale", "TryLock"} /\ Ev.end - lastM > 2 * period))
-    /\ UNCHANGED <<roundId, period, lastM, alive, released, diedAt>>
+    /\ UNCHANGED <<roundId, period, lastM, alive, released, diedAt, nSign, lateSign, lateCtl>>
 
 \* beats seen over the time the holder lived (libGap / ctlGap carry the counts): the library must keep up with the
 \* control heartbeat that did the same work at the documented period (at least 2/3 of its beats, when the control
@@ -75,14 +86,14 @@ Stats == /\ Consume /\ Ev.op = "Stats"
          /\ LET want == (Ev.end - Ev.start) \div period IN
             IF want >= 3 /\ 3 * Ev.ctlGap >= 2 * want /\ 3 * Ev.libGap < 2 * Ev.ctlGap /\ Ev.ctlGap >= Ev.libGap + 2
             THEN Flag({"live-lock-heartbeat-late"}) ELSE UNCHANGED viol
-         /\ UNCHANGED <<roundId, period, lastM, alive, released, diedAt, valid, discarded, void>>
+         /\ UNCHANGED <<roundId, period, lastM, alive, released, diedAt, valid, discarded, void, nSign, lateSign, lateCtl>>
 
 \* after the death: reported stale, released by ReleaseIfStale, acquired by a fresh contender
 Recover == /\ Consume /\ Ev.op = "Recover"
            /\ IF void THEN UNCHANGED viol
               ELSE Flag((IF ~Ev.judged THEN {"dead-lock-not-reported-stale"} ELSE {}) \cup
                         (IF Ev.result # "" THEN {"dead-lock-not-recoverable"} ELSE {}))
-           /\ UNCHANGED <<roundId, period, lastM, alive, released, diedAt, valid, discarded, void>>
+           /\ UNCHANGED <<roundId, period, lastM, alive, released, diedAt, valid, discarded, void, nSign, lateSign, lateCtl>>
 
 \* model-time death points
 DeathPoint ==
@@ -94,6 +105,7 @@ DeathPoint ==
                \cup (IF Ev.dirExists /\ ~Ev.staleAfter THEN {"dead-lock-not-reported-stale"} ELSE {})
                \cup (IF Ev.releaseKind # "" \/ Ev.acquireKind # "" THEN {"dead-lock-not-recoverable"} ELSE {})
     /\ valid' = 1 /\ discarded' = 0
+    /\ nSign' = 0 /\ lateSign' = 0 /\ lateCtl' = 0
     /\ UNCHANGED <<period, lastM, alive, released, diedAt, void>>
 
 TraceNext == Stats \/ Start \/ End \/ Sign \/ Ctl \/ Acquired \/ Died \/ Released \/ Poll \/ Recover \/ DeathPoint
